@@ -50,12 +50,14 @@ TRUSTED = [
 ASSUMPTIONS = [
     "one scheduler thread submits; Executor.stop() is not called from outside during the schedule (only by the monitor "
     "itself); jobs are non-script tasks with default options (one arrayer group; min_array_size larger than the job count "
-    "so groups are handed over as single jobs); job_monitor_interval = 0",
+    "so groups are handed over as single jobs, or min = max = 1 so that a group of n > 1 jobs takes the arrayer's "
+    "overflow path: one job per poll, remainder re-queued); job_monitor_interval = 0",
     "interleavings explored by the tie: the directed witness schedules plus pre-emption bounded random schedules",
 ]
 RULE = ("a case = (executor, number of jobs, schedule over {S, M k, U k, A}) executed line by line on the real executor "
         "class under harness/ctl_threads.py and on the Lean model; compared after every step: executed line, next line of "
-        "every thread, is_running, pending map, queue, arrayer liveness, done/reject calls. distinct = distinct "
+        "every thread, is_running, pending map, queue, arrayer liveness, arrayer.num_pending (= queue length in the model), "
+        "done/reject calls. distinct = distinct "
         "(executor, jobs, schedule); non-trivial = at least one context switch while the scheduler thread is between the "
         "recording line and the end of _start or a monitor is on its exit path")
 LEVEL_TEXT = ("Proved in Lean: refuted_docker / refuted_aws_batch / refuted_k8s / refuted_gcp_batch / refuted_glue (closed "
@@ -245,9 +247,14 @@ ARR_CFG = {"job_monitor_interval": "0", "job_stale_time": "-1", "min_array_size"
 class Rig:
     """One real executor under the deterministic thread controller."""
 
-    def __init__(self, variant, njobs):
+    def __init__(self, variant, njobs, arrmax=0):
         self.variant = variant
         self.njobs = njobs
+        # arrayer max_array_size: 0 = never reached (min 9999 / max 10000: every group goes out as single jobs);
+        # 1 = min 1 / max 1: a group of n > 1 jobs is handed over one job per poll, the remainder is re-queued
+        # (the overflow path of submit_pending_jobs) — still single-job submissions, so no array-job fakes are needed
+        self.arrmax = arrmax if variant in ("batch", "k8s", "gcp") else 0
+        self.arr_cfg = dict(ARR_CFG, min_array_size="1", max_array_size="1") if self.arrmax == 1 else ARR_CFG
         self.sched = FakeSched()
         self.stack = ExitStack()
         self.tmp = tempfile.mkdtemp(prefix="verif-c10-")
@@ -293,7 +300,7 @@ class Rig:
     def _build_batch(self):
         import redun.executors.aws_batch as m
         from redun.config import Config
-        cfg = Config({"x": {"image": "img", "queue": "q", "s3_scratch": "s3://b/r/", **ARR_CFG}})
+        cfg = Config({"x": {"image": "img", "queue": "q", "s3_scratch": "s3://b/r/", **self.arr_cfg}})
         self.ex = m.AWSBatchExecutor("x", scheduler=self.sched, config=cfg["x"])
         self.ex.gather_inflight_jobs = lambda: None
         self._patch(m.aws_utils, "get_aws_user", lambda *a, **k: "u")
@@ -321,7 +328,7 @@ class Rig:
                 return (1, 25)
 
         self._patch(m.k8s_utils, "K8SClient", FakeK8SClient)
-        cfg = Config({"x": {"type": "k8s", "image": "img", "scratch": "s3://b/r/", "create_namespace": "false", **ARR_CFG}})
+        cfg = Config({"x": {"type": "k8s", "image": "img", "scratch": "s3://b/r/", "create_namespace": "false", **self.arr_cfg}})
         self.ex = m.K8SExecutor("x", scheduler=self.sched, config=cfg["x"])
         self.ex.gather_inflight_jobs = lambda: None
         self._patch(m, "submit_task", lambda client, image, namespace, scratch, job, task, **kw:
@@ -351,7 +358,7 @@ class Rig:
         self._patch(m, "get_oneshot_command", lambda *a, **k: ["cmd"])
         self._patch(m, "parse_job_result", lambda scratch, job: ("r", True))
         cfg = Config({"x": {"image": "img", "project": "p", "region": "r", "gcs_scratch": "gs://b/r/",
-                            "debug_scratch": self.tmp, **ARR_CFG}})
+                            "debug_scratch": self.tmp, **self.arr_cfg}})
         self.ex = m.GCPBatchExecutor("x", scheduler=self.sched, config=cfg["x"])
         self.ex.gather_inflight_jobs = lambda: None
         X = m.GCPBatchExecutor
@@ -468,7 +475,12 @@ class Rig:
     def state(self):
         tf = lambda b: "T" if b else "F"  # noqa: E731
         return (f"(flag {tf(self.flag())}) (pend {self._ids(self.pend())}) (queue {self._ids(self.queue())}) "
-                f"(arr {tf(self.arr_alive())}) (rep {self._ids(self.sched.reported)}) (crash i{len(self.sched.crashes)})")
+                f"(arr {tf(self.arr_alive())}) (rep {self._ids(self.sched.reported)}) (crash i{len(self.sched.crashes)}) "
+                f"(num i{self.num_pending()})")
+
+    def num_pending(self):
+        """the counter the monitor loops test next to the pending map (arrayer.num_pending; the queue length elsewhere)"""
+        return self.ex.arrayer.num_pending if hasattr(self.ex, "arrayer") else len(self.queue())
 
     def exiting_monitor(self):
         ex_l = {LABELS[self.variant][i] for i in EXIT_LABELS[self.variant]}
@@ -517,7 +529,7 @@ class Rig:
 
 
 # ------------------------------------------------------------------ model comparison
-_STEP_RX = re.compile(r"^\((\S+) (\(flag .*\(crash i\d+\)) \(hit ([TF])\) \(S (\S+)\) \(mons ([^)]*)\) \(subs ([^)]*)\) \(lost (\([^)]*\))\)\)$")
+_STEP_RX = re.compile(r"^\((\S+) (\(flag .*\(crash i\d+\) \(num i-?\d+\)) \(hit ([TF])\) \(S (\S+)\) \(mons ([^)]*)\) \(subs ([^)]*)\) \(lost (\([^)]*\))\)\)$")
 
 
 def lab(variant, tok):
@@ -665,6 +677,14 @@ def witness_scripts():
         out.append(dict(name=v + "-arrayer-wind-down", variant=v, njobs=3, signature=None,
                         script=[("S", "n", 1), ("S", "until", {1}), ("A", "n", 1), ("A", "untilexit", 3),
                                 ("S", "n", 1), ("S", "until", {1}), ("A", "n", 2)]))
+    # oversized group (more jobs of one description than max_array_size): the first slice is registered and completes
+    # at once while the remainder is still queued in the arrayer; the monitor must stay (arrayer.num_pending counts it)
+    for v in ("batch", "k8s", "gcp"):
+        out.append(dict(name=v + "-oversized-group", variant=v, njobs=3, arrmax=1, signature=None,
+                        script=[("S", "run"), ("A", "n", 1), ("M", "n", 150)]))
+        out.append(dict(name=v + "-oversized-group-interleaved", variant=v, njobs=4, arrmax=1, signature=None,
+                        script=[("S", "n", 1), ("S", "until", {1}), ("S", "n", 1), ("S", "until", {1}), ("A", "n", 1),
+                                ("M", "n", 60), ("S", "run"), ("A", "n", 1), ("M", "n", 150)]))
     out.append(dict(name="glue-in-hand", variant="glue", njobs=1, signature="C10-glue-in-hand-at-loop-exit",
                     script=[("S", "run"), ("U", "until", {46}),        # popleft done, job in hand
                             ("M", "run"), ("U", "run")]))
@@ -701,8 +721,8 @@ def random_schedule(rig, rng, nsteps):
         rig.do(cur)
 
 
-def exec_case(ctx, variant, njobs, script=None, rng=None, nsteps=0, events=None, tags=None):
-    with Rig(variant, njobs) as rig:
+def exec_case(ctx, variant, njobs, script=None, rng=None, nsteps=0, events=None, tags=None, arrmax=0):
+    with Rig(variant, njobs, arrmax) as rig:
         if events is not None:
             for ev in events:
                 rig.do(ev)
@@ -715,9 +735,9 @@ def exec_case(ctx, variant, njobs, script=None, rng=None, nsteps=0, events=None,
             else:
                 random_schedule(rig, rng, nsteps)
             finished = rig.drain()
-        full = dict(variant=variant, njobs=njobs, sched=list(rig.events))
+        full = dict(variant=variant, njobs=njobs, arrmax=rig.arrmax, sched=list(rig.events))
         ok = oracle(ctx, full, rig, finished)
-        req = "run %s (%s) (%s)" % (variant, " ".join("i%d" % i for i in range(njobs)), " ".join(rig.model_ev(e) for e in rig.events))
+        req = "run %s i%d (%s) (%s)" % (variant, rig.arrmax, " ".join("i%d" % i for i in range(njobs)), " ".join(rig.model_ev(e) for e in rig.events))
         rec = dict(full=full, ok=ok, trace=rig.trace, switches=rig.switches, hit=rig.hit, request=req, tags=tags or {},
                    lost=sorted(set(range(njobs)) - set(rig.sched.reported)) if finished else [], finished=finished)
     return rec
@@ -730,7 +750,7 @@ def finish_cases(ctx, recs):
             raise Infra("C10 driver rejected the request: " + reply)
         full = r["full"]
         r["same"] = compare(ctx, full, full["variant"], r["trace"], reply, hit=r["hit"])
-        key = (full["variant"], full["njobs"], tuple(full["sched"])) if r["switches"] > 0 else None
+        key = (full["variant"], full["njobs"], full["arrmax"], tuple(full["sched"])) if r["switches"] > 0 else None
         ctx.case(key=key, sample={"executor": full["variant"], "jobs": full["njobs"], "steps": len(r["trace"]),
                                   "switches": r["switches"], "lost": r["lost"]},
                  executor=full["variant"], steps=min(len(r["trace"]) // 50 * 50, 500), njobs=full["njobs"],
@@ -741,7 +761,8 @@ def run(ctx):
     rng = ctx.rng
     recs = []
     for w in witness_scripts():
-        r = exec_case(ctx, w["variant"], w["njobs"], script=w["script"], tags=dict(kind="witness-" + w["name"]))
+        r = exec_case(ctx, w["variant"], w["njobs"], script=w["script"], tags=dict(kind="witness-" + w["name"]),
+                      arrmax=w.get("arrmax", 0))
         recs.append(r)
         if w["signature"] is None:
             continue
@@ -756,8 +777,9 @@ def run(ctx):
             ctx.note(f"time budget reached after {i} random cases")
             break
         v = VARIANTS[i % len(VARIANTS)]
+        am = 1 if v in ("batch", "k8s", "gcp") and rng.random() < 0.4 else 0
         recs.append(exec_case(ctx, v, rng.choice([1, 2, 2, 3, 4]), rng=rng, nsteps=rng.choice([30, 60, 120, 250]),
-                              tags=dict(kind="random")))
+                              tags=dict(kind="random", arrmax=am), arrmax=am))
     finish_cases(ctx, recs)
 
 
@@ -766,7 +788,7 @@ def replay(ctx, case):
     if not c.get("sched"):
         ctx.note("replay file has no schedule; running the normal check")
         return run(ctx)
-    r = exec_case(ctx, c["variant"], c["njobs"], events=c["sched"], tags=dict(kind="replay"))
+    r = exec_case(ctx, c["variant"], c["njobs"], events=c["sched"], tags=dict(kind="replay"), arrmax=c.get("arrmax", 0))
     finish_cases(ctx, [r])
     print("replay:", "no job lost on this schedule" if r["ok"] else "property VIOLATED on this schedule (lost %s)" % r["lost"],
           "| model agrees" if r["same"] else "| model DISAGREES")
